@@ -103,11 +103,44 @@ def run(chk):
     libprobe.error_propagation(chk, rng, 1 if quick else 6, prefix="c06")
     libprobe.limit_transparency(chk, rng, 1 if quick else 4, prefix="c06",
                                 sweeps={"ud_calls": [1, 2, 4, 9], "search": [1, 3, 9]} if quick else None)
+    # (f) extended fragment (unions, optionals, optional map_or/or/and, get/index sugar/push/len, !: and ?:):
+    #     implementation / extended Lean model CoreX (`core runx`) / extended reference evaluator
+    from . import coregenx as cx
+    xcases = []
+    for ds, tag in cx.targeted_programs():
+        xcases.append(cx.Case(ds, tag, printer_rng=rng))
+    for i in range(120 if quick else 3000):
+        g = cx.Gen(rng, max_depth=rng.choice([3, 4]), err_rate=rng.choice([0.08, 0.15, 0.3]))
+        ds = cg.ERR_PRELUDE + cx.X_PRELUDE + g.program(rng.choice([3, 5, 8]))
+        xcases.append(cx.Case(ds, "x-inject", printer_rng=rng))
+    xprogs = []
+    for i in range(8 if quick else 150):
+        g = cx.Gen(rng, max_depth=4, err_rate=0.05)
+        ds = cg.ERR_PRELUDE + cx.X_PRELUDE + g.program(rng.choice([4, 6]))
+        ev = cx.RefEval()
+        try:
+            ev.run(ds)
+        except Exception:
+            continue
+        if ev.all_calls:
+            xprogs.append((ds, ev.all_calls, ev.max_depth))
+    for ds, ncalls, mdepth in xprogs:
+        src = cx.Printer(rng).program(ds)
+        for l in range(1, min(ncalls, 10 if quick else 40) + 2):
+            xcases.append(cx.Case(ds, "x-calls-limit", calls=l, src=src))
+        for l in range(1, mdepth + 2):
+            xcases.append(cx.Case(ds, "x-depth-limit", depth=l, src=src))
+    res = three_way(chk, xcases, "c06", nontrivial=lambda c, ev: True, per_req_timeout=40.0)
+    chk.coverage["extended_fragment_runs"] = len(res)
+    chk.coverage["extended_fragment_runs_ending_in_violation"] = sum(1 for c, ci, cm, co, ev in res if ci["outcome"].startswith("viol"))
+    for c, ci, cm, co, ev in res[-1:]:
+        chk.sample({"program": c.src, "impl": ci["outcome"]})
     return chk.finish(rule="generated core programs with typed error values injected at argument positions (unique messages), "
                            "targeted leftmost-error programs (every subset of erroring arguments of a k-ary user function, direct / via variable / via lambda, "
                            "inside tuple and array construction and under is_error), and call/depth limit sweeps 1..need+1 on handler-wrapped programs; "
                            "plus, over the whole exported library surface (signature hook + typed value pool of C01): an error value at each argument position must be the result, "
                            "and calls running user callbacks under call/search limits end in that violation or in the unlimited outcome; "
+                           "plus the extended fragment (unions, optionals with map_or/or/and, get/index/push/len, !: and ?:) three ways against the model CoreX: every native x every subset of erroring arguments, index sweep around the bounds, generated programs with injection, limit sweeps; "
                            "non-trivial = program contains an injected error or runs under a limit; distinct by source text + limits")
 
 
